@@ -222,4 +222,396 @@ theorem disabled_meter_never_streams (i : Instr) (reg : List Registered) (sc : V
     exported false reg sc i keys = [] := by
   unfold exported; simp
 
+/-! ## Selectors -/
+
+theorem gen_literals : Gen.patternMatchAll = [42] ∧ Gen.exactMatchAll = [] ∧ Gen.matchMeterSkipsEmpty = false ∧
+    Gen.defaultViewName = [] := ⟨rfl, rfl, rfl, rfl⟩
+
+/-- the wildcard `*` selects every name -/
+theorem pattern_all : namePredOf [42] = some .all ∧ ∀ s, NamePred.all.matches s = true := by
+  refine ⟨?_, fun _ => rfl⟩
+  unfold namePredOf; rw [gen_literals.1]; simp
+
+/-- a pattern predicate matches exactly the language of its items -/
+theorem pattern_matches_iff_lang (items : List RxItem) (s : Bytes) :
+    (NamePred.pattern items).matches s = true ↔ Lang items s := by
+  unfold NamePred.matches; exact rxMatch_iff_lang items s
+
+/-- the language of a pattern made of literal characters only is that one string -/
+theorem parse_literal : ∀ (lit : Bytes), (∀ c ∈ lit, isLiteralChar c = true) →
+    ∃ items, parsePattern lit = some items ∧ ∀ s, Lang items s ↔ s = lit := by
+  intro lit
+  induction lit with
+  | nil => intro _; exact ⟨[], rfl, fun s => Iff.rfl⟩
+  | cons c rest ih =>
+    intro h
+    obtain ⟨items, hp, hl⟩ := ih (fun x hx => h x (by simp [hx]))
+    have hc := h c (by simp)
+    have hne : c ≠ 46 ∧ c ≠ 42 := by
+      have : ∀ c : UInt8, isLiteralChar c = true → c ≠ 46 ∧ c ≠ 42 := forall_byte _ (by decide +kernel)
+      exact this c hc
+    have hatom : atomOf c = some [(c.toNat, c.toNat)] := by
+      unfold atomOf
+      have : (c == 46) = false := by simpa using hne.1
+      simp [this, hc]
+    have hparse : parsePattern (c :: rest) = some (⟨[(c.toNat, c.toNat)], 1, some 1⟩ :: items) := by
+      cases rest with
+      | nil =>
+        have : items = [] := by simpa [parsePattern] using hp.symm
+        subst this
+        simp [parsePattern, hatom]
+      | cons d rest' =>
+        have hd : d ≠ 42 := by
+          have : ∀ c : UInt8, isLiteralChar c = true → c ≠ 46 ∧ c ≠ 42 := forall_byte _ (by decide +kernel)
+          exact (this d (h d (by simp))).2
+        rw [parsePattern.eq_3 _ _ (by intro rest'' hh; simp only [List.cons.injEq] at hh; exact hd hh.1)]
+        simp [hatom, hp]
+    refine ⟨_, hparse, ?_⟩
+    intro s
+    have hhas : ∀ x : UInt8, (⟨[(c.toNat, c.toNat)], 1, some 1⟩ : RxItem).has x = true ↔ x = c := by
+      intro x
+      simp only [RxItem.has, List.any_cons, List.any_nil, Bool.or_false, Bool.and_eq_true, decide_eq_true_eq]
+      constructor
+      · rintro ⟨h1, h2⟩
+        exact UInt8.toNat_inj.1 (by omega)
+      · rintro rfl; exact ⟨Nat.le_refl _, Nat.le_refl _⟩
+    simp only [Lang, RxItem.allows]
+    constructor
+    · rintro ⟨rep, s', rfl, h1, h2, h3, h4⟩
+      have hlen : rep.length = 1 := by
+        have : rep.length ≤ 1 := by simpa using h3
+        omega
+      match rep, hlen with
+      | [x], _ =>
+        rw [(hhas x).1 (h1 x (by simp)), (hl s').1 h4]; rfl
+    · rintro rfl
+      exact ⟨[c], rest, rfl, by intro x hx; simp only [List.mem_singleton] at hx; exact (hhas x).2 hx, by simp, by simp, (hl rest).2 rfl⟩
+
+/-- **exact name selectors**: a pattern of literal name characters (other than the lone wildcard) selects exactly that name -/
+theorem pattern_literal_iff (lit : Bytes) (h : ∀ c ∈ lit, isLiteralChar c = true) :
+    ∃ p, namePredOf lit = some p ∧ ∀ s, p.matches s = true ↔ s = lit := by
+  obtain ⟨items, hp, hl⟩ := parse_literal lit h
+  have hne : lit ≠ [42] := by
+    rintro rfl
+    exact absurd (h 42 (by simp)) (by decide)
+  refine ⟨.pattern items, ?_, fun s => by rw [pattern_matches_iff_lang, hl]⟩
+  unfold namePredOf
+  rw [gen_literals.1]
+  simp [hne, hp]
+
+/-- unit and meter selectors: the empty selector selects everything, any other selector only the equal string -/
+theorem exact_iff (pat s : Bytes) : exactMatches pat s = true ↔ pat = [] ∨ pat = s := by
+  unfold exactMatches; rw [gen_literals.2.1]; simp
+
+/-- what it means for a name to be selected -/
+def NameSelected : NamePred → Bytes → Prop
+  | .all, _ => True
+  | .pattern items, s => Lang items s
+
+/-- **a registered view applies to exactly the instruments whose type, name (exact or pattern), unit and meter identity
+    match its selectors** -/
+theorem view_applies_iff_selectors_match (r : Registered) (sc : View.Scope) (i : Instr) :
+    applies r sc i = true ↔
+      (r.isel.type = i.type ∧ NameSelected r.isel.name i.name ∧ (r.isel.unit = [] ∨ r.isel.unit = i.unit)) ∧
+      ((r.msel.name = [] ∨ r.msel.name = sc.name) ∧ (r.msel.version = [] ∨ r.msel.version = sc.version) ∧
+       (r.msel.schema = [] ∨ r.msel.schema = sc.schema)) := by
+  unfold applies matchMeter matchMeterWith matchInstrument
+  rw [gen_literals.2.2.1]
+  simp only [Bool.false_and, Bool.false_or, Bool.and_eq_true, exact_iff, decide_eq_true_eq]
+  have hn : r.isel.name.matches i.name = true ↔ NameSelected r.isel.name i.name := by
+    cases hp : r.isel.name with
+    | all => simp [NamePred.matches, NameSelected]
+    | pattern items => exact pattern_matches_iff_lang items i.name
+  rw [hn]
+  constructor
+  · rintro ⟨⟨⟨h1, h2⟩, h3⟩, ⟨h4, h5⟩, h6⟩
+    exact ⟨⟨h6, h4, h5⟩, h1, h2, h3⟩
+  · rintro ⟨⟨h6, h4, h5⟩, h1, h2, h3⟩
+    exact ⟨⟨⟨h1, h2⟩, h3⟩, ⟨h4, h5⟩, h6⟩
+
+/-- before the D13 fix a meter without version / schema URL was matched by a selector that names one:
+    selector `(m, 2.0, http://x)` against meter `(m, "", "")` -/
+theorem matchMeter_aswas_witness :
+    matchMeterWith true ⟨[109], [50, 46, 48], [104, 116, 116, 112, 58, 47, 47, 120]⟩ ⟨[109], [], []⟩ = true ∧
+    matchMeterWith false ⟨[109], [50, 46, 48], [104, 116, 116, 112, 58, 47, 47, 120]⟩ ⟨[109], [], []⟩ = false := by
+  decide
+
+/-- `FindViews`: the views of the registered entries that apply, in registration order; the default view when none does -/
+theorem findViews_spec (reg : List Registered) (sc : View.Scope) (i : Instr) :
+    ((∃ r ∈ reg, applies r sc i = true) → findViews reg sc i = (reg.filter (applies · sc i)).map (·.view)) ∧
+    ((∀ r ∈ reg, applies r sc i = false) → findViews reg sc i = [defaultView]) := by
+  unfold findViews
+  constructor
+  · rintro ⟨r, hr, ha⟩
+    have hmem : r ∈ reg.filter (applies · sc i) := List.mem_filter.2 ⟨hr, ha⟩
+    cases hf : reg.filter (applies · sc i) with
+    | nil => rw [hf] at hmem; simp at hmem
+    | cons x xs => simp
+  · intro h
+    have : reg.filter (applies · sc i) = [] := List.filter_eq_nil_iff.2 (fun a ha => by simp [h a ha])
+    rw [this]; rfl
+
+/-! ## Streams -/
+
+theorem exported_at_most_one (en : Bool) (reg : List Registered) (sc : View.Scope) (i : Instr) (keys : List Bytes) :
+    (exported en reg sc i keys).length ≤ 1 := by
+  unfold exported
+  split
+  · simp
+  · split <;> simp
+
+/-- **the view's stream is exported** — as the code is, only under the extra hypothesis that no view registered *later*
+    applies to the same instrument (D09): then the instrument's one exported stream is the one shaped by this view -/
+theorem view_stream_exported_partial (pre post : List Registered) (r : Registered) (sc : View.Scope) (i : Instr)
+    (keys : List Bytes) (hv : validInstrument i.name i.unit = true) (ha : applies r sc i = true)
+    (hlast : ∀ r' ∈ post, applies r' sc i = false) :
+    exported true (pre ++ r :: post) sc i keys = [streamOf i r.view keys] := by
+  have hpost : post.filter (applies · sc i) = [] := List.filter_eq_nil_iff.2 (fun a ha' => by simp [hlast a ha'])
+  have hfilter : (pre ++ r :: post).filter (applies · sc i) = pre.filter (applies · sc i) ++ [r] := by
+    rw [List.filter_append, List.filter_cons, if_pos ha, hpost]
+  have hfind : findViews (pre ++ r :: post) sc i = (pre.filter (applies · sc i)).map (·.view) ++ [r.view] := by
+    rw [(findViews_spec _ sc i).1 ⟨r, by simp, ha⟩, hfilter]; simp
+  unfold exported storages
+  rw [hfind]
+  simp [hv]
+
+/-- the full statement "every applying view yields its stream" is false of the code: two applying views, only the later
+    one's stream is exported (views `*`→`first` and `*`→`second` on counter `reqs`) -/
+theorem view_shadowed_witness :
+    let v1 : View := ⟨[102, 105, 114, 115, 116], [], [], .sum, none⟩
+    let v2 : View := ⟨[115, 101, 99, 111, 110, 100], [], [], .sum, none⟩
+    let sel : InstrSel := ⟨.counter, .all, []⟩
+    let i : Instr := ⟨.counter, [114, 101, 113, 115], [], []⟩
+    let sc : View.Scope := ⟨[109], [], []⟩
+    applies ⟨sel, ⟨[], [], []⟩, v1⟩ sc i = true ∧ applies ⟨sel, ⟨[], [], []⟩, v2⟩ sc i = true ∧
+    exported true [⟨sel, ⟨[], [], []⟩, v1⟩, ⟨sel, ⟨[], [], []⟩, v2⟩] sc i [[97], [98]] = [streamOf i v2 [[97], [98]]] ∧
+    streamOf i v1 [[97], [98]] ∉ exported true [⟨sel, ⟨[], [], []⟩, v1⟩, ⟨sel, ⟨[], [], []⟩, v2⟩] sc i [[97], [98]] := by
+  intro v1 v2 sel i sc
+  have a1 : applies ⟨sel, ⟨[], [], []⟩, v1⟩ sc i = true := by decide
+  have a2 : applies ⟨sel, ⟨[], [], []⟩, v2⟩ sc i = true := by decide
+  have hv : validInstrument i.name i.unit = true := by
+    unfold validInstrument
+    rw [(validName_iff _).2 ⟨114, [101, 113, 115], rfl, by decide, by decide, by decide⟩,
+      (validUnit_iff _).2 ⟨by decide, by intro c hc; simp [i] at hc⟩]
+    rfl
+  have he := view_stream_exported_partial [⟨sel, ⟨[], [], []⟩, v1⟩] [] ⟨sel, ⟨[], [], []⟩, v2⟩ sc i [[97], [98]] hv a2 (by simp)
+  refine ⟨a1, a2, he, ?_⟩
+  have he' : exported true [⟨sel, ⟨[], [], []⟩, v1⟩, ⟨sel, ⟨[], [], []⟩, v2⟩] sc i [[97], [98]] = [streamOf i v2 [[97], [98]]] := he
+  rw [he']
+  decide
+
+/-- **then its name, description, aggregation and attribute filter shape the exported stream**: the stream's name and
+    description are the view's unless empty, the aggregation is the view's (the type default for `kDefault`), unit and
+    type stay the instrument's.  (The attribute keys: next theorem.) -/
+theorem view_shapes_stream (i : Instr) (v : View) (keys : List Bytes) :
+    (streamOf i v keys).name = (if v.name = [] then i.name else v.name) ∧
+    (streamOf i v keys).description = (if v.description = [] then i.description else v.description) ∧
+    (streamOf i v keys).agg = (if v.agg = .default then defaultAgg i.type else v.agg) ∧
+    (streamOf i v keys).unit = i.unit ∧ (streamOf i v keys).type = i.type := by
+  unfold streamOf resolveAgg
+  refine ⟨?_, ?_, rfl, rfl, rfl⟩
+  · cases h : v.name <;> simp
+  · cases h : v.description <;> simp
+
+/-- the attribute filter: exactly the measured keys the view allows — as the code is, only for synchronous instruments
+    (or views without a filter): observable instruments ignore it (D22) -/
+theorem view_shapes_stream_filter_partial (i : Instr) (v : View) (keys : List Bytes)
+    (h : i.type.observable = false ∨ v.filter = none) :
+    (v.filter = none → (streamOf i v keys).keys = keys) ∧
+    (∀ allowed, v.filter = some allowed → (streamOf i v keys).keys = keys.filter (fun k => allowed.contains k)) := by
+  unfold streamOf filterKeys
+  constructor
+  · intro hn; simp [hn]
+  · intro allowed ha
+    rcases h with h | h
+    · simp [h, ha]
+    · rw [ha] at h; simp at h
+
+/-- the witness for D22: observable counter, view with allow-list `{a}`, measurement with keys `a`, `b` -/
+theorem view_filter_ignored_witness :
+    (streamOf ⟨.obsCounter, [111], [], []⟩ ⟨[], [], [], .default, some [[97]]⟩ [[97], [98]]).keys = [[97], [98]] ∧
+    (streamOf ⟨.counter, [111], [], []⟩ ⟨[], [], [], .default, some [[97]]⟩ [[97], [98]]).keys = [[97]] := by
+  decide
+
+/-- **and nothing else**: the view's own `unit` (stored by `View`, never read) has no influence on the stream -/
+theorem view_unit_irrelevant (i : Instr) (v : View) (u : Bytes) (keys : List Bytes) :
+    streamOf i { v with unit := u } keys = streamOf i v keys := rfl
+
+/-- the type defaults: sums for (observable) counters and up-down counters, a histogram for histograms, the last value
+    for gauges -/
+theorem default_aggregation_table :
+    defaultAgg .counter = .sum ∧ defaultAgg .obsCounter = .sum ∧ defaultAgg .upDownCounter = .sum ∧
+    defaultAgg .obsUpDownCounter = .sum ∧ defaultAgg .histogram = .histogram ∧ defaultAgg .obsGauge = .lastValue ∧
+    defaultAgg .gauge = .lastValue := by decide
+
+/-- **instruments matched by no view get the default aggregation for their type**, their own name, description and
+    unit, and all measured attributes -/
+theorem unmatched_gets_type_default (reg : List Registered) (sc : View.Scope) (i : Instr) (keys : List Bytes)
+    (hv : validInstrument i.name i.unit = true) (hno : ∀ r ∈ reg, applies r sc i = false) :
+    exported true reg sc i keys = [⟨i.name, i.description, i.unit, i.type, defaultAgg i.type, keys⟩] := by
+  unfold exported storages
+  rw [(findViews_spec reg sc i).2 hno]
+  simp only [hv, Bool.not_true, Bool.or_false, Bool.false_eq_true, if_false, List.map_cons, List.map_nil, List.getLast?_singleton]
+  unfold streamOf defaultView resolveAgg filterKeys
+  rw [gen_literals.2.2.2]
+  simp
+
+/-! ## Scope configurator and provider lookup -/
+section Scopes
+open Otel.Scope
+
+/-- **conditions are evaluated in order, the first match wins** -/
+theorem configurator_first_match (pre post : List Rule) (r : Rule) (dflt : Bool) (id : Ident)
+    (hr : r.matcher.holds id = true) (hpre : ∀ r' ∈ pre, r'.matcher.holds id = false) :
+    computeConfig (pre ++ r :: post) dflt id = r.enabled := by
+  induction pre with
+  | nil => simp [computeConfig, hr]
+  | cons x xs ih =>
+    simp only [List.cons_append, computeConfig, hpre x (by simp), Bool.false_eq_true, if_false]
+    exact ih (fun r' h' => hpre r' (by simp [h']))
+
+/-- **else the default** -/
+theorem configurator_default (rules : List Rule) (dflt : Bool) (id : Ident)
+    (h : ∀ r ∈ rules, r.matcher.holds id = false) : computeConfig rules dflt id = dflt := by
+  induction rules with
+  | nil => rfl
+  | cons x xs ih =>
+    simp only [computeConfig, h x (by simp), Bool.false_eq_true, if_false]
+    exact ih (fun r' h' => h r' (by simp [h']))
+
+example : computeConfig [⟨.nameEq [111], false⟩, ⟨.any, true⟩] false ⟨[111], [], [], [], []⟩ = false := by decide
+
+theorem indexOf_some : ∀ (st : Instances) (id : Ident) (i : Nat), indexOf? st id = some i → st[i]? = some id := by
+  intro st
+  induction st with
+  | nil => intro id i h; simp [indexOf?] at h
+  | cons x rest ih =>
+    intro id i h
+    simp only [indexOf?] at h
+    by_cases hx : x = id
+    · simp only [hx, if_true, Option.some.injEq] at h
+      subst h; simp [hx]
+    · simp only [hx, if_false, Option.map_eq_some_iff] at h
+      obtain ⟨j, hj, rfl⟩ := h
+      simpa using ih id j hj
+
+theorem indexOf_none : ∀ (st : Instances) (id : Ident), indexOf? st id = none → ∀ i : Nat, st[i]? ≠ some id := by
+  intro st
+  induction st with
+  | nil => intro id _ i; simp
+  | cons x rest ih =>
+    intro id h i
+    simp only [indexOf?] at h
+    by_cases hx : x = id
+    · simp [hx] at h
+    · simp only [hx, if_false, Option.map_eq_none_iff] at h
+      cases i with
+      | zero => simpa using hx
+      | succ j => simpa using ih id h j
+
+/-- all instances of a provider have different identities -/
+def Distinct (st : Instances) : Prop := ∀ (i j : Nat) (a : Ident), st[i]? = some a → st[j]? = some a → i = j
+
+theorem getInstance_spec (st : Instances) (id : Ident) (hd : Distinct st) :
+    (∃ ext, (getInstance st id).1 = st ++ ext) ∧ (getInstance st id).1[(getInstance st id).2]? = some id ∧
+    Distinct (getInstance st id).1 := by
+  unfold getInstance
+  cases h : indexOf? st id with
+  | some i => exact ⟨⟨[], by simp⟩, indexOf_some st id i h, hd⟩
+  | none =>
+    refine ⟨⟨[id], rfl⟩, by simp, ?_⟩
+    show Distinct (st ++ [id])
+    intro i j a hi hj
+    have hnone := indexOf_none st id h
+    by_cases hil : i < st.length
+    · rw [List.getElem?_append_left hil] at hi
+      by_cases hjl : j < st.length
+      · rw [List.getElem?_append_left hjl] at hj
+        exact hd i j a hi hj
+      · have : j = st.length := by
+          have := (List.getElem?_eq_some_iff.1 hj).1
+          simp at this; omega
+        subst this
+        simp at hj
+        subst hj
+        exact absurd hi (hnone i)
+    · have hi' : i = st.length := by
+        have := (List.getElem?_eq_some_iff.1 hi).1
+        simp at this; omega
+      subst hi'
+      simp at hi
+      subst hi
+      by_cases hjl : j < st.length
+      · rw [List.getElem?_append_left hjl] at hj
+        exact absurd hj (hnone j)
+      · have := (List.getElem?_eq_some_iff.1 hj).1
+        simp at this; omega
+
+/-- every request is answered by an instance created for exactly the requested identity; earlier instances stay -/
+theorem run_spec (rules : List Rule) (dflt : Bool) : ∀ (reqs : List Ident) (st : Instances), Distinct st →
+    ∃ final, (∃ ext, final = st ++ ext) ∧ Distinct final ∧
+      ∀ (k : Nat) (id : Ident) (o : Obs), reqs[k]? = some id → (runRequests rules dflt st reqs)[k]? = some o →
+        final[o.instance_]? = some id ∧ o.exported = (if computeConfig rules dflt id then 1 else 0) := by
+  intro reqs
+  induction reqs with
+  | nil => intro st hd; exact ⟨st, ⟨[], by simp⟩, hd, by intro k id o h; simp at h⟩
+  | cons r rest ih =>
+    intro st hd
+    obtain ⟨⟨ext1, he1⟩, hget, hd1⟩ := getInstance_spec st r hd
+    obtain ⟨final, ⟨ext2, he2⟩, hdf, hall⟩ := ih (getInstance st r).1 hd1
+    refine ⟨final, ⟨ext1 ++ ext2, by rw [he2, he1, List.append_assoc]⟩, hdf, ?_⟩
+    intro k id o hk ho
+    cases k with
+    | zero =>
+      simp only [List.getElem?_cons_zero, Option.some.injEq] at hk
+      subst hk
+      simp only [runRequests, request, List.getElem?_cons_zero, Option.some.injEq] at ho
+      subst ho
+      simp only
+      have hlt : (getInstance st r).2 < (getInstance st r).1.length := (List.getElem?_eq_some_iff.1 hget).1
+      refine ⟨by rw [he2, List.getElem?_append_left hlt]; exact hget, ?_⟩
+      rw [hget]
+    | succ k' =>
+      simp only [List.getElem?_cons_succ] at hk
+      simp only [runRequests, request, List.getElem?_cons_succ] at ho
+      exact hall k' id o hk ho
+
+/-- **requesting the same name / version / schema / attributes returns the same tracer, meter or logger** — and a
+    different identity a different one — over every history of requests to a provider -/
+theorem same_identity_same_instance (rules : List Rule) (dflt : Bool) (reqs : List Ident) (a b : Nat) (ida idb : Ident)
+    (oa ob : Obs) (ha : reqs[a]? = some ida) (hb : reqs[b]? = some idb)
+    (hoa : (runRequests rules dflt [] reqs)[a]? = some oa) (hob : (runRequests rules dflt [] reqs)[b]? = some ob) :
+    oa.instance_ = ob.instance_ ↔ ida = idb := by
+  obtain ⟨final, _, hdf, hall⟩ := run_spec rules dflt reqs [] (by intro i j a h; simp at h)
+  have h1 := (hall a ida oa ha hoa).1
+  have h2 := (hall b idb ob hb hob).1
+  constructor
+  · intro h; rw [h, h2] at h1; exact (Option.some.inj h1).symm
+  · intro h; subst h; exact hdf _ _ _ h1 h2
+
+/-- the enabled flag of an instance is the configurator's verdict on its identity: every request exports its item
+    exactly when the scope is enabled (computed once, the same at every later request for that identity) -/
+theorem instance_config_fixed (rules : List Rule) (dflt : Bool) (reqs : List Ident) (k : Nat) (id : Ident) (o : Obs)
+    (hk : reqs[k]? = some id) (ho : (runRequests rules dflt [] reqs)[k]? = some o) :
+    o.exported = (if computeConfig rules dflt id then 1 else 0) := by
+  obtain ⟨final, _, _, hall⟩ := run_spec rules dflt reqs [] (by intro i j a h; simp at h)
+  exact (hall k id o hk ho).2
+
+/-- **a tracer, meter or logger whose scope the configurator disables produces no telemetry** -/
+theorem disabled_scope_silent (rules : List Rule) (dflt : Bool) (reqs : List Ident) (k : Nat) (id : Ident) (o : Obs)
+    (hk : reqs[k]? = some id) (ho : (runRequests rules dflt [] reqs)[k]? = some o)
+    (hdis : computeConfig rules dflt id = false) : o.exported = 0 := by
+  rw [instance_config_fixed rules dflt reqs k id o hk ho, hdis]; rfl
+
+/-- **while differently named scopes are unaffected**: a rule that disables the scope named `n` changes nothing for
+    any scope with another name (and so, by `instance_config_fixed`, nothing in what they export) -/
+theorem others_unaffected (rules : List Rule) (dflt : Bool) (n : Bytes) (en : Bool) (id : Ident) (h : id.name ≠ n) :
+    computeConfig (⟨.nameEq n, en⟩ :: rules) dflt id = computeConfig rules dflt id := by
+  simp [computeConfig, Matcher.holds, h]
+
+example : (runRequests [⟨.nameEq [111], false⟩] true [] [⟨[111], [], [], [], []⟩, ⟨[120], [], [], [], []⟩, ⟨[111], [], [], [], []⟩]) =
+    [⟨0, 0⟩, ⟨1, 1⟩, ⟨0, 0⟩] := by decide
+
+end Scopes
+
 end Otel.C19
